@@ -653,6 +653,25 @@ class ParserRig:
     def parse(self, model, d):
         return self.aird.parse_diagram(model._loader, d._element)
 
+    def edge_ends(self, treedata) -> dict[str, set[str]]:
+        """edge uuid -> uuids of the elements it is attached to, read from the stored notation
+        (note connectors carry no source/target on the parsed Edge object)"""
+        ids = {n.get(self.C.ATT_XMID): n for n in treedata.iter() if n.get(self.C.ATT_XMID)}
+        ends: dict[str, set[str]] = {}
+        for e in treedata.iterdescendants("edges"):
+            uid = e.get("element") or e.get(self.C.ATT_XMID)
+            got = ends.setdefault(uid, set())
+            for side in ("source", "target"):
+                ref = e.get(side)
+                if not ref:
+                    continue
+                ref = ref.split("#")[-1]
+                got.add(ref)
+                node = ids.get(ref)
+                if node is not None and node.get("element"):
+                    got.add(node.get("element"))
+        return ends
+
 
 class shifted:
     """context manager: add (dx, dy) to the stored x/y of the given layoutConstraint elements"""
@@ -803,6 +822,7 @@ def parser_run(ctx: Ctx, out: Outcome) -> None:
             for sig, what in soundness(base):
                 out.find(sig, f"{rel} {d.name!r}: {what}", {"kind": "sound", **where, "v": [0, 0]})
             tops = rig.top_nodes(td)
+            ends = rig.edge_ends(td)
             lcs = [lc for _, lc in tops]
             vecs = vectors_fixed[: ctx.pick(3, 5)] + [(rng.randint(-10000, 10000), rng.randint(-10000, 10000)) for _ in range(ctx.pick(2, 6))]
             for v in vecs:
@@ -843,7 +863,7 @@ def parser_run(ctx: Ctx, out: Outcome) -> None:
                             out.find(f"parse_diagram|moved|raises|{type(e).__name__}", f"{rel} {d.name!r} node {nid} moved by {v}: {type(e).__name__}: {e}",
                                      {"kind": "move", **where, "node": nid, "index": k, "v": list(v)})
                             continue
-                    problem = judge_move(base, moved, nid, v)
+                    problem = judge_move(base, moved, nid, v, ends)
                     if problem:
                         out.find("parse_diagram|moved|unrelated-element-changed", f"{rel} {d.name!r} node {nid} moved by {v}: {problem}",
                                  {"kind": "move", **where, "node": nid, "index": k, "v": list(v)})
@@ -851,7 +871,7 @@ def parser_run(ctx: Ctx, out: Outcome) -> None:
     out.samples.append({"stream": "parser", "models": stats["models"], "diagrams": stats["diagrams"]})
 
 
-def judge_move(base: list[dict], moved: list[dict], nid: str, v) -> str | None:
+def judge_move(base: list[dict], moved: list[dict], nid: str, v, ends: dict | None = None) -> str | None:
     """only the node, its contents and the edges attached to them may change"""
     if len(base) != len(moved):
         return f"{len(base) - 1} elements became {len(moved) - 1}"
@@ -873,7 +893,8 @@ def judge_move(base: list[dict], moved: list[dict], nid: str, v) -> str | None:
     while grew:
         grew = False
         for e in base:
-            if e["t"] == "edge" and e["uuid"] not in affected and (e["src"] in affected or e["tgt"] in affected):
+            if e["t"] == "edge" and e["uuid"] not in affected and (
+                    e["src"] in affected or e["tgt"] in affected or (ends or {}).get(e["uuid"], set()) & affected):
                 affected.add(e["uuid"])
                 grew = True
     for a, b in zip(base, moved):
@@ -931,7 +952,7 @@ def replay(ctx: Ctx, case: dict):
             if kind == "move":
                 with shifted([tops[case["index"]][1]], *case["v"]):
                     moved = snapshot(diagram, rig.parse(model, d))
-                return judge_move(base, moved, case["node"], case["v"])
+                return judge_move(base, moved, case["node"], case["v"], rig.edge_ends(td))
             with shifted([lc for _, lc in tops], *case["v"]):
                 moved = snapshot(diagram, rig.parse(model, d))
         except Exception as e:
